@@ -471,6 +471,24 @@ def rw_map_or(body, cnt):
         body = body[:m.start()] + '(match %s { None => %s, Some(%s) => %s })' % (recv, d, cm.group(1).strip(), cm.group(2).strip()) + body[c + 1:]
         cnt.hit('R30')
 
+def rw_as_ref_and_then(body, cnt):
+    """R31: RECV.as_ref().and_then(|p| E)  ==>  (match &RECV { None => None, Some(p) => E })   (definitions of Option::as_ref and
+    Option::and_then); only when E neither returns nor uses `?`"""
+    start = 0
+    while True:
+        msk = mask(body)
+        m = re.compile(r'([A-Za-z_]\w*(?:\s*\.\s*[A-Za-z_]\w*)*)\s*\.\s*as_ref\s*\(\s*\)\s*\.\s*and_then\s*\(').search(msk, start)
+        if not m: return body
+        o = m.end() - 1
+        c = match_close(msk, o)
+        cl = body[o + 1:c].strip()
+        cm = re.match(r'^\|\s*(\w+)\s*\|\s*(.*)$', cl, re.S)
+        if not cm or re.search(r'\breturn\b|\?', mask(cm.group(2))):
+            start = m.end(); continue
+        recv = re.sub(r'\s+', '', body[m.start(1):m.end(1)])
+        body = body[:m.start()] + '(match &%s { None => None, Some(%s) => %s })' % (recv, cm.group(1), cm.group(2).strip()) + body[c + 1:]
+        cnt.hit('R31')
+
 def rw_format(body, cnt):
     """D5: `format!(..)` only builds error / attribute text, which no clause specifies: the text is dropped"""
     while True:
@@ -506,7 +524,7 @@ def rw_paths(body, cnt):
     if n: cnt.hit('D3', n)
     return body
 
-GENERIC = [rw_paths, rw_map_or, rw_format, rw_into_iter_map_collect, rw_map_collect, rw_find, rw_update_closure, rw_sum, rw_for_loops, rw_opassign, rw_opassign_arm, rw_closure_underscore]
+GENERIC = [rw_paths, rw_map_or, rw_as_ref_and_then, rw_format, rw_into_iter_map_collect, rw_map_collect, rw_find, rw_update_closure, rw_sum, rw_for_loops, rw_opassign, rw_opassign_arm, rw_closure_underscore]
 
 # --------------------------------------------------------------------------------------
 
